@@ -780,6 +780,18 @@ func TestC09Meta(t *testing.T) {
 			"aa-only":       `<md:EntityDescriptor xmlns:md="urn:oasis:names:tc:SAML:2.0:metadata" entityID="https://edited.example/sp"><md:AttributeAuthorityDescriptor protocolSupportEnumeration="x"/></md:EntityDescriptor>`,
 			"truncated":     string(xt.Write(c09FullMetadata(), plainStyle.W))[:400],
 		}
+		// aggregates (md:EntitiesDescriptor) of every shape the schema allows and some it does not
+		const mdns = `xmlns:md="urn:oasis:names:tc:SAML:2.0:metadata"`
+		ent := `<md:EntityDescriptor entityID="https://edited.example/sp"><md:SPSSODescriptor protocolSupportEnumeration="urn:oasis:names:tc:SAML:2.0:protocol"><md:AssertionConsumerService Binding="urn:oasis:names:tc:SAML:2.0:bindings:HTTP-POST" Location="https://edited.example/acs" index="0"/></md:SPSSODescriptor></md:EntityDescriptor>`
+		for name, inner := range map[string]string{
+			"empty": "", "extensions-only": `<md:Extensions><x xmlns="urn:x"/></md:Extensions>`, "nested-group": `<md:EntitiesDescriptor Name="inner">` + ent + `</md:EntitiesDescriptor>`,
+			"nested-empty": `<md:EntitiesDescriptor/>`, "one": ent, "two": ent + strings.Replace(ent, "edited.example/sp", "second.example/sp", 1), "text-only": "just text",
+			"entity-without-role": `<md:EntityDescriptor entityID="https://edited.example/sp"/>`, "group-then-entity": `<md:EntitiesDescriptor/>` + ent, "deep": strings.Repeat(`<md:EntitiesDescriptor>`, 40) + ent + strings.Repeat(`</md:EntitiesDescriptor>`, 40),
+		} {
+			raw["aggregate/"+name] = `<md:EntitiesDescriptor ` + mdns + ` Name="urn:example:federation">` + inner + `</md:EntitiesDescriptor>`
+		}
+		raw["aggregate/self-closing"] = `<md:EntitiesDescriptor ` + mdns + `/>`
+		raw["aggregate/default-ns"] = `<EntitiesDescriptor xmlns="urn:oasis:names:tc:SAML:2.0:metadata"></EntitiesDescriptor>`
 		for name, m := range raw {
 			try("raw "+name, []byte(m))
 		}
